@@ -695,6 +695,77 @@ class Item:
         self.rewrite(bo + h.start(), bs, ";/*@pre*/\n  loop\n  /*@loop*/\n  {\n    let Some(%s) = vx_mc.next() else { break; };/*@body*/\n    let vx_e = " % p, "R3-map-collect")
         self.rewrite(be, semi + 1, ";\n    %s.push(vx_e);\n  }" % var, "R3-map-collect")
 
+    def r3_lift_filter_map(self, fn, k):
+        """let V: T = RECV.into_iter().filter_map(|P| { BODY }).collect();   where the closure assigns captured variables
+        (FnMut; this Verus has no closures with mutable captures)  ==>  lambda lifting + the definition of filter_map/collect:
+          fn vx_lifted_<fn>(P: PT, c1: &mut T1, ..) -> R { BODY with every identifier ci read as (*ci) }      (emitted before fn)
+          let mut V: T = Vec::new(); let mut vx_it = vx_into_iter(RECV);
+          loop { let Some(P) = vx_it.next() else { break; }; if let Some(vx_x) = vx_lifted_<fn>(P, &mut c1, ..) { V.push(vx_x); } }
+        `return`/`?` inside BODY keep their meaning (they leave the closure / the lifted fn).  Parameters come from `liftparams`."""
+        if fn not in getattr(self, "lift", {}):
+            raise Undecided("R3 lift-filter-map: no liftparams for fn %s" % fn)
+        pdecl, caps, rty, prefix, contract = self.lift[fn]
+        k0, _, bo, end, _ = self.fn_span(fn)
+        hits = list(re.finditer(r"\.\s*into_iter\s*\(\s*\)\s*\.\s*filter_map\s*\(", self.m[bo:end]))
+        if len(hits) < k:
+            raise Undecided("LOST-ANCHOR: R3 lift-filter-map #%d in fn %s of %s" % (k, fn, self.where()))
+        h = hits[k - 1]
+        par = bo + h.end() - 1
+        p, bs, be, close = self._closure_after(par)
+        if self.text[bs] != "{" or match_brace(self.m, bs) is None or self.text[match_brace(self.m, bs) + 1:be].strip():
+            raise Undecided("R3 lift-filter-map: closure body is not a block at %s:%d" % (self.relpath, self.line_of(bs)))
+        pname = pdecl.split(":")[0].strip()
+        if p != pname:
+            raise Undecided("R3 lift-filter-map: closure parameter is `%s`, liftparams says `%s`" % (p, pname))
+        s0 = self._stmt_start(bo + h.start())
+        semi = self.m.find(";", close)
+        if not re.match(r"\s*\.\s*collect\s*\(\s*\)\s*$", self.text[close + 1:semi]):
+            raise Undecided("R3 lift-filter-map: `.collect()` expected after the closure at %s:%d" % (self.relpath, self.line_of(close)))
+        head = self.text[s0:bo + h.start()]
+        mo = re.match(r"let\s+([A-Za-z_][A-Za-z0-9_]*)\s*(:\s*[^=]+?)?\s*=\s*(.*)$", head, re.S)
+        if not mo:
+            raise Undecided("R3 lift-filter-map: statement shape not recognised at %s:%d" % (self.relpath, self.line_of(s0)))
+        var, ty, recv = mo.group(1), (mo.group(2) or ""), mo.group(3).strip()
+        capl = [c.strip() for c in caps.split(",") if c.strip()]
+        body = self.text[bs:match_brace(self.m, bs) + 1]
+        r4note = ""
+        for old_, new_ in getattr(self, "lift_r4", {}).get(fn, []):
+            # same target language as R4: `$1`..`$9` stand for a place expression
+            toks = re.findall(r"\$\d|\w+|[^\w\s]", old_)
+            pat = r"\s*".join((r"(?P<v%s>[A-Za-z_]\w*(?:\[[^\]]*\])?(?:\s*\.\s*[A-Za-z_]\w*(?:\[[^\]]*\])?)*?)" % t[1]) if re.match(r"\$\d$", t) else re.escape(t) for t in toks)
+            if re.match(r"\w", old_):
+                pat = r"(?<![\w.])" + pat
+            if re.search(r"\w$", old_):
+                pat = pat + r"\b"
+
+            def _rep(h, new_=new_):
+                rep = new_
+                for gk, gv in h.groupdict().items():
+                    rep = rep.replace("$" + gk[1:], re.sub(r"\s+", "", gv))
+                return rep
+            body, n_ = re.subn(pat, _rep, body)
+            if n_ == 0:
+                raise Undecided("LOST-ANCHOR: liftR4 target `%s` not in the closure of fn %s in %s" % (old_, fn, self.where()))
+            r4note += " +R4[%s => %s]" % (old_, new_)
+        mbody = mask(body)
+        for c in capl:
+            cn = c.split(":")[0].strip()
+            out, last = [], 0
+            for mm in re.finditer(r"(?<![A-Za-z0-9_\.])%s(?![A-Za-z0-9_])" % re.escape(cn), mbody):
+                out.append(body[last:mm.start()]); out.append("(*%s)" % cn); last = mm.end()
+            out.append(body[last:])
+            body = "".join(out)
+            mbody = mask(body)
+        params = ", ".join([pdecl] + ["%s: &mut %s" % (c.split(":")[0].strip(), c.split(":", 1)[1].strip()) for c in capl])
+        lifted = "fn vx_lifted_%s(%s) -> (vx_r: %s)\n/*+vx*/%s/*-vx*/\n%s\n\n  " % (fn, params, rty, contract, body)
+        fstart = self._stmt_start(k0)
+        self.rewrite(fstart, fstart, lifted, "R3-lift-filter-map" + r4note)
+        args_ = ", ".join([pname] + ["&mut %s" % c.split(":")[0].strip() for c in capl])
+        loop = ("let mut %s%s = Vec::new();\n    let mut vx_it = vx_into_iter(%s);/*@pre*/\n    loop\n    /*@loop*/\n    {\n"
+                "      let Some(%s) = vx_it.next() else { break; };/*@body*/\n      if let Some(vx_x) = %svx_lifted_%s(%s) { %s.push(vx_x); }\n    }"
+                % (var, ty, recv, pname, prefix, fn, args_, var))
+        self.rewrite(s0, semi + 1, loop, "R3-lift-filter-map")
+
     def r3_for_index(self, fn, k, mode="ref"):
         """for X in RECV { BODY }  (RECV a slice/Vec/&Vec expression) ==> index while-loop;
         `continue` inside BODY is preceded by the index increment; BODY stays in place.
@@ -1106,6 +1177,14 @@ def build_unit(unit_path, repo=REPO):
                                 new = new.replace("/*@body*/", "/*+vx*/" + bodytxt + "/*-vx*/")
                             it.edits[ei] = (ed[0], ed[1], new, ed[3], ed[4])
                             break
+            elif name == "liftparams":
+                # liftparams <fn> "<closure parameter: name: Type>" "<captured mutable variables: name: Type, ...>" "<result type>" "<call prefix>" <<< contract of the lifted fn >>>
+                it.lift = getattr(it, "lift", {})
+                it.lift[args[0]] = (args[1], args[2], args[3], args[4] if len(args) > 4 else "", payload or "")
+            elif name == "liftR4":
+                # liftR4 <fn> "<old>" "<new>": an R4 redirection applied inside the closure body that lift-filter-map lifts
+                it.lift_r4 = getattr(it, "lift_r4", {})
+                it.lift_r4.setdefault(args[0], []).append((args[1], args[2]))
             elif name == "R4":
                 it.d_R4(args[0], args[1], "R4")
             elif name == "R4opt":
